@@ -153,3 +153,35 @@ pub fn select_all(claims: &J) -> Map<String, J> {
         _ => Map::new(),
     }
 }
+
+// ---------------------------------------------------------------- crafted (hand-signed) SD-JWTs
+
+/// Resolve a crafted-credential template. `payload` and the disclosure templates may
+/// contain strings "#k" which are replaced by the digest of disclosure k (a disclosure may
+/// only reference disclosures with a higher index). A disclosure template is any JSON
+/// value (encoded as base64url(JSON text)) or {"$raw": "text"} for a literal string.
+pub fn build_crafted(payload: &J, templates: &[J]) -> (J, Vec<String>) {
+    fn subst(v: &J, digests: &std::collections::HashMap<usize, String>) -> J {
+        match v {
+            J::String(s) if s.starts_with('#') => match s[1..].parse::<usize>().ok().and_then(|k| digests.get(&k)) {
+                Some(d) => J::String(d.clone()),
+                None => v.clone(),
+            },
+            J::Array(a) => J::Array(a.iter().map(|e| subst(e, digests)).collect()),
+            J::Object(o) => J::Object(o.iter().map(|(k, e)| (k.clone(), subst(e, digests))).collect()),
+            _ => v.clone(),
+        }
+    }
+    let mut digests = std::collections::HashMap::new();
+    let mut texts: Vec<String> = vec![String::new(); templates.len()];
+    for k in (0..templates.len()).rev() {
+        let t = &templates[k];
+        let text = match t.get("$raw").and_then(|r| r.as_str()) {
+            Some(raw) => raw.to_string(),
+            None => crate::util::make_disclosure(&subst(t, &digests)),
+        };
+        digests.insert(k, digest(&text));
+        texts[k] = text;
+    }
+    (subst(payload, &digests), texts)
+}
